@@ -1,7 +1,7 @@
 from props import rc, TRUST
 
 _TYPES = ['u8', 'i8', 'u16', 'i16', 'u32', 'i32', 'u64', 'i64', 'f32', 'f64']
-_MIXED = ['mixedA', 'mixedB', 'mixedC', 'mixedD']
+_MIXED = ['mixedA', 'mixedB', 'mixedC', 'mixedD', 'mixedE']
 # header-only, same x86-64 baseline as the oracle expressions, no FMA contraction
 _FLAGS = '-ffp-contract=off'
 _TH = dict(scale=3, seeds=3)
@@ -15,7 +15,9 @@ PROP = dict(
          '(instance id, mode, values); coverage.labels lists every instance id, harness.*.instances = enumerated/exercised',
     floor=dict(quick=800000, thorough=5000000),
     assumptions=TRUST,
-    parallel=14,
+    parallel=16,
     bins=[rc('C04_' + t, 'harness/C04_%s.cpp' % t, None, flags=_FLAGS, thorough=_TH) for t in _TYPES]
-         + [rc('C04_' + m, 'harness/C04_%s.cpp' % m, None, flags=_FLAGS, thorough=_TH) for m in _MIXED],
+         + [rc('C04_' + m, 'harness/C04_%s.cpp' % m, None, flags=_FLAGS, thorough=_TH) for m in _MIXED]
+         + [rc('C04_llscalar', 'harness/C04_llscalar.cpp', None, flags=_FLAGS, thorough=_TH)],
 )
+PROP['rule'] += ' Round-4 extension: a fifth mixed binary pairs the element types with long long / unsigned long long (types of their own on LP64); C04_llscalar adds and subtracts scalars of type long long, unsigned long long and char through explicitly typed results; compound assignment with a scalar that is the own component of the vector; operator<< on streams whose imbued locale and flags differ from the defaults.'
